@@ -21,8 +21,15 @@ pub enum Expect {
     AcceptWith(Value),
     /// an error, or exactly the "view" answered by this specification request (plus cnf for this holder)
     RejectOrSpec(Value, Option<KeyId>),
+    /// must accept, and return exactly the "view" answered by this specification request (plus cnf for this holder)
+    AcceptSpec(Value, Option<KeyId>),
     /// an error, or exactly the "claims" of this spec_process request when it answers "some"; must be an error when it answers "none"
     Draft(Value),
+    /// well-formed control of C08: the verifier must accept with exactly the "claims" of this spec_process request (which is
+    /// expected to answer "some"); the optional value is the view the generator computed on its own
+    DraftAccept(Value, Option<Value>),
+    /// as Draft, and the verifier must return an error whatever the specification answers (the property's explicit must-reject list)
+    DraftReject(Value),
     /// no expectation (model comparison and panic-freedom only)
     Free,
 }
@@ -80,7 +87,83 @@ pub fn edit_at(r: &mut Rng, s: &str, i: usize, kind: usize) -> String {
     String::from_utf8_lossy(&out).to_string()
 }
 
+impl Expect {
+    /// the expectation as stored in a replay case
+    pub fn json(&self) -> Value {
+        match self {
+            Expect::Reject => json!({"kind": "reject"}),
+            Expect::Accept => json!({"kind": "accept"}),
+            Expect::AcceptWith(v) => json!({"kind": "accept_with", "claims": v}),
+            Expect::RejectOrSpec(q, h) => json!({"kind": "reject_or_spec", "request": q, "holder": h.map(|k| k.id())}),
+            Expect::AcceptSpec(q, h) => json!({"kind": "accept_spec", "request": q, "holder": h.map(|k| k.id())}),
+            Expect::Draft(q) => json!({"kind": "draft", "request": q}),
+            Expect::DraftAccept(q, own) => json!({"kind": "draft_accept", "request": q, "own": own}),
+            Expect::DraftReject(q) => json!({"kind": "draft_reject", "request": q}),
+            Expect::Free => json!({"kind": "free"}),
+        }
+    }
+    pub fn of_json(v: &Value) -> Expect {
+        let req = v.get("request").cloned().unwrap_or(Value::Null);
+        let holder = v.get("holder").and_then(Value::as_u64).and_then(crate::props::key_by_id);
+        match v.get("kind").and_then(Value::as_str) {
+            Some("reject") => Expect::Reject,
+            Some("accept") => Expect::Accept,
+            Some("accept_with") => Expect::AcceptWith(v.get("claims").cloned().unwrap_or(Value::Null)),
+            Some("reject_or_spec") => Expect::RejectOrSpec(req, holder),
+            Some("accept_spec") => Expect::AcceptSpec(req, holder),
+            Some("draft") => Expect::Draft(req),
+            Some("draft_accept") => Expect::DraftAccept(req, v.get("own").filter(|x| !x.is_null()).cloned()),
+            Some("draft_reject") => Expect::DraftReject(req),
+            _ => Expect::Free,
+        }
+    }
+}
+
+fn key_of_json(v: &Value) -> Option<KeyId> {
+    v.get("id").and_then(Value::as_u64).and_then(crate::props::key_by_id)
+}
+
+/// inverse of `Resolver::json`
+pub fn resolver_of_json(v: &Value) -> Option<Resolver> {
+    let default = key_of_json(v.get("default")?)?;
+    let by_iss = v
+        .get("by_iss")
+        .and_then(Value::as_array)
+        .map(|a| a.iter().filter_map(|e| Some((e.get("iss")?.as_str()?.to_string(), key_of_json(e.get("key")?)?))).collect())
+        .unwrap_or_default();
+    Some(Resolver { default, by_iss })
+}
+
+/// verifier arguments as stored in a replay case: {"input","fmt","resolver","aud","nonce"}
+pub fn verify_args_of_json(c: &Value) -> Option<VerifyArgs> {
+    Some(VerifyArgs {
+        input: c.get("input")?.as_str()?.to_string(),
+        fmt: Fmt::from_name(c.get("fmt")?.as_str()?),
+        resolver: resolver_of_json(c.get("resolver")?)?,
+        aud: c.get("aud").and_then(Value::as_str).map(String::from),
+        nonce: c.get("nonce").and_then(Value::as_str).map(String::from),
+    })
+}
+
+/// the single attack stored in a replay file written by `run_attacks`
+pub fn attack_from_replay(path: &str) -> Option<Attack> {
+    let v: Value = serde_json::from_str(&std::fs::read_to_string(path).ok()?).ok()?;
+    let c = v.get("case")?;
+    Some(Attack {
+        name: c.get("attack").and_then(Value::as_str).unwrap_or("replayed").to_string(),
+        args: verify_args_of_json(c)?,
+        expect: Expect::of_json(c.get("expect").unwrap_or(&Value::Null)),
+        origin: c.get("origin").cloned().unwrap_or(Value::Null),
+        nontrivial: true,
+    })
+}
+
 pub fn run_attacks(ctx: &mut Ctx, attacks: &[Attack]) {
+    let _ = run_attacks_out(ctx, attacks);
+}
+
+/// as `run_attacks`; returns the implementation's outcome of every attack
+pub fn run_attacks_out(ctx: &mut Ctx, attacks: &[Attack]) -> Vec<Outcome<Value>> {
     let mut reqs = vec![];
     let mut results = vec![];
     for a in attacks {
@@ -89,10 +172,16 @@ pub fn run_attacks(ctx: &mut Ctx, attacks: &[Attack]) {
         ctx.impl_calls += 1;
         let i = reqs.len();
         reqs.push(verify_request(i, &a.args, r.t0));
-        reqs.push(verify_request(i + 1, &a.args, r.t1));
+        // the model is asked at both clock reads of the call; when they coincide one question serves for both
+        let j = if r.t1 == r.t0 {
+            i
+        } else {
+            reqs.push(verify_request(i + 1, &a.args, r.t1));
+            i + 1
+        };
         let mut spec = None;
         match &a.expect {
-            Expect::RejectOrSpec(req, _) | Expect::Draft(req) => {
+            Expect::RejectOrSpec(req, _) | Expect::AcceptSpec(req, _) | Expect::Draft(req) | Expect::DraftAccept(req, _) | Expect::DraftReject(req) => {
                 spec = Some(reqs.len());
                 let mut q = req.clone();
                 q["id"] = json!(reqs.len());
@@ -100,35 +189,68 @@ pub fn run_attacks(ctx: &mut Ctx, attacks: &[Attack]) {
             }
             _ => {}
         }
-        results.push((r, i, spec));
+        results.push((r, (i, j), spec));
     }
     let resp = run_model(&reqs);
-    for (a, (r, i, spec)) in attacks.iter().zip(&results) {
-        cmp_verify(ctx, &a.args, r, &resp[*i], &resp[*i + 1]);
+    for (a, (r, (i, j), spec)) in attacks.iter().zip(&results) {
+        cmp_verify(ctx, &a.args, r, &resp[*i], &resp[*j]);
         ctx.oracle_checks += 1;
         ctx.count(&format!("case.{}", a.name.split(':').next().unwrap_or("")));
         ctx.count(&format!("outcome.{}", r.out.class()));
         let case = json!({"attack": a.name, "input": a.args.input, "fmt": a.args.fmt.name(), "resolver": a.args.resolver.json(),
-                          "aud": a.args.aud, "nonce": a.args.nonce, "origin": a.origin});
+                          "aud": a.args.aud, "nonce": a.args.nonce, "origin": a.origin, "expect": a.expect.json()});
         let mut bad: Option<(String, Value)> = None;
         match (&r.out, &a.expect) {
             (Outcome::Panic(_), _) | (Outcome::Timeout, _) => bad = Some(("the verifier panicked or did not return".into(), json!("Ok or Err"))),
             (Outcome::Ok(_), Expect::Reject) => bad = Some((format!("accepted although it must be rejected ({})", a.name), json!("Err"))),
-            (Outcome::Err(_), Expect::Accept) | (Outcome::Err(_), Expect::AcceptWith(_)) => bad = Some((format!("rejected although it must be accepted ({})", a.name), json!("Ok"))),
+            (Outcome::Err(_), Expect::Accept) | (Outcome::Err(_), Expect::AcceptWith(_)) | (Outcome::Err(_), Expect::AcceptSpec(_, _)) => bad = Some((format!("rejected although it must be accepted ({})", a.name), json!("Ok"))),
             (Outcome::Ok(v), Expect::AcceptWith(e)) => {
                 if v != e {
                     bad = Some((format!("accepted with claims other than expected ({})", a.name), e.clone()));
                 }
             }
-            (Outcome::Ok(v), Expect::RejectOrSpec(_, holder)) => {
-                let e = with_cnf(resp[spec.unwrap()].get("view").unwrap_or(&Value::Null), *holder);
+            (Outcome::Ok(v), Expect::RejectOrSpec(_, holder)) | (Outcome::Ok(v), Expect::AcceptSpec(_, holder)) => {
+                let e = match resp[spec.unwrap()].get("view") {
+                    Some(view) => with_cnf(view, *holder),
+                    None => {
+                        // the specification did not answer (driver failure): nothing to judge against
+                        ctx.skip_model("spec-view-missing");
+                        v.clone()
+                    }
+                };
                 if *v != e {
                     bad = Some((format!("returned claims that are not the view determined by the genuine disclosures presented ({})", a.name), e));
                 }
             }
-            (out, Expect::Draft(_)) => {
+            (out, Expect::Draft(_)) | (out, Expect::DraftAccept(_, _)) | (out, Expect::DraftReject(_)) => {
                 let s = &resp[spec.unwrap()];
-                match (out, s.get("r").and_then(Value::as_str)) {
+                let sr = s.get("r").and_then(Value::as_str);
+                match &a.expect {
+                    Expect::DraftAccept(_, own) => {
+                        if sr != Some("some") {
+                            // the specification oracle rejects a structure the generator built as well-formed: a fault of the
+                            // checking apparatus, not of the implementation
+                            ctx.violation("correspondence", "spec", &format!("the specification oracle rejects a well-formed control ({})", a.name), case.clone(), json!({"spec": s}), json!("some"));
+                        } else if let Some(own) = own {
+                            if Some(own) != s.get("claims") {
+                                ctx.violation("correspondence", "spec", &format!("the specification oracle and the generator's own view differ on a well-formed control ({})", a.name), case.clone(), json!({"spec": s}), own.clone());
+                            }
+                        }
+                        if sr == Some("some") && out.is_err() {
+                            bad = Some((format!("rejected a well-formed structure that the specification accepts ({})", a.name), s.get("claims").cloned().unwrap_or(Value::Null)));
+                        }
+                    }
+                    Expect::DraftReject(_) => {
+                        if sr == Some("some") {
+                            ctx.count("spec_oracle_accepts_a_case_of_the_property_must_reject_list");
+                        }
+                        if out.is_ok() {
+                            bad = Some((format!("accepted although the property requires an error ({})", a.name), json!("Err")));
+                        }
+                    }
+                    _ => {}
+                }
+                match (out, sr) {
                     (Outcome::Ok(v), Some("some")) => {
                         if Some(v) != s.get("claims") {
                             bad = Some((format!("verified claims differ from the specification's processing result ({})", a.name), s.get("claims").cloned().unwrap_or(Value::Null)));
@@ -138,6 +260,8 @@ pub fn run_attacks(ctx: &mut Ctx, attacks: &[Attack]) {
                     _ => {}
                 }
                 ctx.count(&format!("spec.{}", s.get("r").and_then(Value::as_str).unwrap_or("?")));
+                ctx.count(&format!("spec_vs_verifier.{}.{}", sr.unwrap_or("?"), r.out.class()));
+                ctx.count(&format!("class.{}: spec {} / verifier {}", a.name.split(':').next().unwrap_or(""), sr.unwrap_or("?"), r.out.class()));
             }
             _ => {}
         }
@@ -147,6 +271,7 @@ pub fn run_attacks(ctx: &mut Ctx, attacks: &[Attack]) {
             ctx.nontrivial(&json!([a.name, a.args.input]));
         }
     }
+    results.into_iter().map(|(r, _, _)| r.out).collect()
 }
 
 /// an honest flow executed up to the presentation; None when any stage failed
